@@ -93,10 +93,80 @@ def run(ctx, rep):
                 rep.fn(name)
     rep.floor("R10.3", 2)
     marker_discipline(ctx, rep)
+    marker_scan(ctx, rep)
     # R10.5 both conversions are total: panic-site inventory
     import panics
     panics.check_paths(ctx, rep, "R10.5", ["insim_core::string::codepages::to_lossy_bytes", "insim_core::string::codepages::to_lossy_string"], label="codepage conversion")
     rep.floor("R10.5", 5)
+
+
+SCAN = "insim_core::string::codepages::to_lossy_string"
+
+
+def marker_scan(ctx, rep):
+    """R10.7: the decoder recognises a marker wherever the encoder can put one.  The encoder emits `^X` context-free (R10.6:
+    whenever the active codepage changes, whatever precedes it - an escaped caret included), so the decoder's recognition must be
+    context-free too: (a) every closure of to_lossy_string captures nothing from the function (it sees the bytes it is handed
+    only - a test that looks back at `input[pos - 1]` would have to capture `input`); (b) the position predicate, evaluated as a
+    table over (byte, next byte), is true exactly for a caret followed by one of LFS's marker letters."""
+    import tabeval
+    b = ctx.mir.body(SCAN)
+    if b is None:
+        rep.fail("R10.7", "found", "to_lossy_string not found")
+        return
+    rep.fn(SCAN)
+    from mirq import inline_calls
+    modp = "insim_core::string::codepages::"
+    b = inline_calls(b, lambda d: d.startswith(modp) and "{closure" not in d and d.count("::") == modp.count("::") and not d.endswith(("to_lossy_bytes", "to_lossy_string")), depth=3)
+    clos = []
+    for bl in b.blocks:
+        for st in bl["stmts"]:
+            if st["k"] == "assign" and st["rv"]["k"] == "agg" and st["rv"].get("agg") == "closure":
+                clos.append((st["rv"].get("def") or st["rv"].get("closure") or "", st["rv"]["ops"], st.get("line")))
+    n = 0
+    for bb, t in b.calls():
+        for a in t["args"]:
+            o = b.origin(a)
+            if o[0] == "agg" and o[1][0] == "closure":
+                n += 1
+                caps = [x for x in o[2] if "('arg', 1)" in str(x)]
+                rep.check("R10.7", "closure:%s:input-not-captured" % o[1][1].split("::")[-1], not caps,
+                          "closure %s of to_lossy_string captures the input (%s): recognition of a marker must depend on the bytes the closure is handed only, "
+                          "because the encoder emits markers regardless of what precedes them" % (o[1][1].split("::")[-1], ", ".join(fmt_o(x) for x in caps)[:120]),
+                          b.loc(t["line"]), sample={"closure": o[1][1], "captures": len(o[2])})
+    pos = [(bb, t) for bb, t in b.calls_to(r"Itertools::positions$|Iterator::position$|Iterator::filter$|Iterator::filter_map$")
+           if len(t["args"]) > 1 and b.origin(t["args"][1])[0] == "agg"]
+    pred = None
+    for bb, t in pos:
+        o = b.origin(t["args"][1])
+        cb = ctx.mir.body(o[1][1])
+        if cb is not None and any((callee(tt)[0] or "").endswith(("is_lfs_codepage", "as_lfs_codepage")) for _b, tt in cb.calls()):
+            pred = o[1][1]
+    if pred is None:
+        rep.fail("R10.7", "predicate:found", "the closure that recognises `^` + codepage letter in to_lossy_string was not found", b.loc())
+        return
+    rep.fn(pred)
+    m = tabeval.Model(ctx, ctx.mir.body(pred), None, local_prefix="insim_core::string::")
+    want_letters = {ord(c) for c in LFS}
+    bad = None
+    try:
+        for e in (0x5E, 0x5D, 0x5F, 0x00, 0x41, 0x4C, 0x38, 0xFF):
+            for nx in range(256):
+                v = m.eval_body(pred, {1: ("tup", ()), 2: ("tup", (e, nx))})
+                want = 1 if (e == 0x5E and nx in want_letters) else 0
+                if (1 if v else 0) != want and bad is None:
+                    bad = "bytes (0x%02X, 0x%02X) are %s as a marker" % (e, nx, "recognised" if v else "not recognised")
+    except (tabeval.Unknown, tabeval.Panic) as ex:
+        rep.fail("R10.7", "predicate:table", "the marker predicate could not be evaluated as a table (%s)" % ex, b.loc())
+        return
+    rep.check("R10.7", "predicate:table", bad is None, "a marker is a caret followed by one of %s: %s" % ("".join(sorted(LFS)), bad), b.loc(),
+              sample={"pairs_evaluated": 8 * 256})
+    rep.floor("R10.7", 2)
+
+
+def fmt_o(o):
+    from mirq import fmt_origin
+    return fmt_origin(o)
 
 
 def marker_discipline(ctx, rep):
